@@ -19,6 +19,9 @@ func Bytes(label string, n int) []byte
 func Choice(label string, n int) int
 func Split(label string, x uint64, max int) uint64
 
+// Concretize forks over up to n feasible values of x (chosen by the solver); afterwards x stays symbolic.
+func Concretize(label string, x uint64, n int) uint64
+
 // raw memory standing for physical / firmware memory. init: 0 = zero-filled, 1 = arbitrary content
 func Region(label string, base, capacity uintptr, init int) []byte
 func Limit(label string, n uintptr)
